@@ -35,7 +35,8 @@ def run(cx):
         en = co.calls_to("dashmap::DashMap::entry")
         ob.floor(en, 1, "DashMap::entry", exact=True)
         k = strip_identity(arg_origin(en[0], 1, o))
-        ok = k[0] == "field" and k[1][0] == "variant" and k[1][2] == "Continue" and term_has_call(k, "anemo::types::request::Request::peer_id") and mentions_upvar(k, "req")
+        kr = payload_root(k)
+        ok = kr[0] == "call" and name_matches(kr[1], "anemo::types::request::Request::peer_id") and mentions_upvar(kr, "req") and kr is not k
         ob.require(ok, "key/sender", f"semaphore key is {show(k)[:100]}", co.path, co.loc(en[0].bb))
         ob.require(mentions_upvar(arg_origin(en[0], 0, o), "inflight"), "map/captured", f"map is {show(arg_origin(en[0], 0, o))}", co.path)
         oi = co.calls_to("dashmap::mapref::entry::Entry::or_insert_with")
@@ -133,8 +134,13 @@ def run(cx):
                 return f"await(?{aw})"
             if name_matches(c.fn, "anemo::types::request::Request::peer_id"):
                 return "sender?"
-            if name_matches(c.fn, "Option::ok_or_else") and term_has_call(o.of_operand(c.args[0]), "Request::peer_id"):
-                return "or(" + ",".join(sorted(closure_statuses(o.of_operand(c.args[1])) or ["?"])) + ")"
+            if name_matches(c.fn, "anemo::rpc::Status::internal"):
+                return "internal"               # (the missing-sender arm / closure: modelled as control flow by words_of)
+            if name_matches(c.fn, ("anemo::rpc::Status::new", "anemo::rpc::Status::new_with_message")):
+                a = strip_identity(o.of_operand(c.args[0]))
+                return "status(" + (a[2].split("::")[-1] if a[0] == "agg" else "?") + ")"
+            if name_matches(c.fn, "anemo::rpc::Status::unknown"):
+                return "status(?unknown)"
             if name_matches(c.fn, "dashmap::DashMap::entry"):
                 return "entry"
             if name_matches(c.fn, "tokio::sync::semaphore::Semaphore::acquire"):
@@ -144,13 +150,8 @@ def run(cx):
             if name_matches(c.fn, ("Semaphore::acquire_owned", "Semaphore::try_acquire_owned", "Semaphore::acquire_many", "Semaphore::try_acquire_many",
                                    "Semaphore::add_permits", "Semaphore::close", "SemaphorePermit::forget", "mem::forget", "ManuallyDrop::new")):
                 return "sem?" + c.fn.split("::")[-1]
-            if name_matches(c.fn, "Result::map_err"):
-                r = o.of_operand(c.args[0])
-                if term_has_call(r, "Semaphore::try_acquire"):
-                    return "maperr{" + ";".join(sorted(try_acquire_map(o.of_operand(c.args[1])) or ["?"])) + "}"
-                if term_has_call(r, "Semaphore::acquire"):
-                    return "maperr(" + ",".join(sorted(closure_statuses(o.of_operand(c.args[1])) or ["?"])) + ")"
-                return None
+            # (map_err on the acquisition results is modelled as control flow by words_of: the mapping closure's events -
+            #  which error variant, which status - appear in place, exactly as in a written-out match)
             if name_matches(c.fn, "tower_service::Service::call"):
                 ok = strip_identity(o.of_operand(c.args[0])) == ("upvar", "inner") and strip_identity(o.of_operand(c.args[1])) == ("upvar", "req")
                 return "inner.call(req)" if ok else "inner.call(?)"
@@ -159,6 +160,10 @@ def run(cx):
         def extra(a, bb, subj, labels, o):
             if subj[0] == "discr" and strip_identity(subj[1]) == ("upvar", "wait_mode"):
                 return "mode=" + "|".join(sorted(labels))
+            if subj[0] == "discr" and labels <= {"Closed", "NoPermits"}:
+                r = strip_identity(subj[1])
+                if (r[0] == "field" and r[2] == "0" and r[1][0] == "variant" and r[1][2] == "Err" and term_has_call(r, "Semaphore::try_acquire")) or r[0] == "param":
+                    return "e=" + "|".join(sorted(labels))
             return None
 
         def stmt_sym(bbi, s, o):
@@ -169,13 +174,13 @@ def run(cx):
                 return "ret=?"
             return None
         ws = {fmt_word(w) for w in seq_words(co, call_sym, stmt_sym, extra)}
-        tm = "maperr{e=Closed ret=InternalServerError <return>;e=NoPermits ret=TooManyRequests <return>}"
         want = {
-            "sender? or(internal) !err <return>",
-            "sender? or(internal) entry mode=Block acquire await(acquire) maperr(internal) !err <return>",
-            "sender? or(internal) entry mode=Block acquire await(acquire) maperr(internal) inner.call(req) await(inner) ret=inner-result <return>",
-            f"sender? or(internal) entry mode=ReturnError try_acquire {tm} !err <return>",
-            f"sender? or(internal) entry mode=ReturnError try_acquire {tm} inner.call(req) await(inner) ret=inner-result <return>",
+            "sender? internal !err <return>",
+            "sender? entry mode=Block acquire await(acquire) internal !err <return>",
+            "sender? entry mode=Block acquire await(acquire) inner.call(req) await(inner) ret=inner-result <return>",
+            "sender? entry mode=ReturnError try_acquire e=Closed status(InternalServerError) !err <return>",
+            "sender? entry mode=ReturnError try_acquire e=NoPermits status(TooManyRequests) !err <return>",
+            "sender? entry mode=ReturnError try_acquire inner.call(req) await(inner) ret=inner-result <return>",
         }
         ob.count(len(ws))
         for w in sorted(ws - want):
@@ -198,7 +203,8 @@ def run(cx):
         ob.floor(ic, 1, "inner.call site", exact=True)
         C = ic[0].bb
         # block where the awaited inner result is taken (Ready edge)
-        ready = [i for i, bl in enumerate(co.blocks) if not bl.get("cleanup") for s in bl["s"] if s["k"] == "assign" and s["lhs"] == 0]
+        ready = [i for i, bl in enumerate(co.blocks) if not bl.get("cleanup") for s in bl["s"] if s["k"] == "assign" and s["lhs"] == 0
+                 and term_has_call(o.of_rvalue(s["rv"]), "tower_service::Service::call")]      # (explicit `return Err(..)` arms assign _0 too)
         ob.floor(ready, 1, "assignment of the inner result", exact=True)
         R = ready[0]
         holders = []
